@@ -100,6 +100,12 @@ func init() {
 		e.res.Bounds["unwind"] = st.unwind
 		return nil
 	}
+	harnessAPI["vUnwindAssume"] = func(e *Engine, st *State, a []Value, ci ssa.CallInstruction) Value {
+		st.unwind = int(a[0].(BV).T.C)
+		st.ghost["unwindAssume"] = Bool{tTrue}
+		e.res.Bounds["unwind(assumed)"] = st.unwind
+		return nil
+	}
 	harnessAPI["vBound"] = func(e *Engine, st *State, a []Value, ci ssa.CallInstruction) Value {
 		name := e.cstr(st, a[0])
 		q, t := a[1].(BV).T, a[2].(BV).T
@@ -132,6 +138,18 @@ func init() {
 	}
 	harnessAPI["vAllocLimit"] = func(e *Engine, st *State, a []Value, ci ssa.CallInstruction) Value {
 		st.ghost["allocLimit"] = a[0]
+		return nil
+	}
+	harnessAPI["vAllocBegin"] = func(e *Engine, st *State, a []Value, ci ssa.CallInstruction) Value {
+		st.ghost["allocLimit"] = a[0]
+		return nil
+	}
+	harnessAPI["vAllocEnd"] = func(e *Engine, st *State, a []Value, ci ssa.CallInstruction) Value {
+		delete(st.ghost, "allocLimit")
+		return nil
+	}
+	harnessAPI["vAbstractStrings"] = func(e *Engine, st *State, a []Value, ci ssa.CallInstruction) Value {
+		st.ghost["abstractStrings"] = Bool{tTrue}
 		return nil
 	}
 	harnessAPI["vExpectPanic"] = func(e *Engine, st *State, a []Value, ci ssa.CallInstruction) Value {
@@ -503,6 +521,10 @@ func (e *Engine) endPath(st *State, end PathEnd) {
 		e.res.Asserts = append(e.res.Asserts, rec)
 	case "kill":
 		if strings.HasPrefix(end.Msg, "UNWIND") {
+			if _, ok := st.ghost["unwindAssume"]; ok {
+				e.res.Truncated++
+				return
+			}
 			e.res.Paths++
 			pos := strings.TrimPrefix(end.Msg, "UNWIND ")
 			rec := AssertRec{Label: "unwind@" + pos, Pos: pos, Kind: "unwind", Msg: fmt.Sprintf("loop bound %d reached | %s", st.unwind, e.stackTrace(st))}
